@@ -178,6 +178,7 @@ type State struct {
 	wlog    []int // ids of cells written (stores), in order
 	unfolded map[int]bool // recursive spec applications already unfolded in this state (copy on write)
 	nalloc  int           // number of objects moved into symbolic regions on this path
+	cutMark int           // cell counter when the innermost cut loop was entered (objects older than that are not fresh inside it)
 	focusSchemas bool     // a focused proof state that keeps the instances of quantified preconditions
 	reqFacts []*Term      // the contract's unquantified preconditions (for focus requires)
 	logMark int   // index into log of the most recent loop cut (events before it belong to earlier iterations)
@@ -207,6 +208,7 @@ func (s *State) fork() *State {
 		logMark: s.logMark,
 		unfolded: s.unfolded,
 		nalloc:  s.nalloc,
+		cutMark: s.cutMark,
 		focusSchemas: s.focusSchemas,
 		reqFacts: s.reqFacts[:len(s.reqFacts):len(s.reqFacts)],
 	}
